@@ -11,25 +11,51 @@ META = {
             "each, in order (C13_isolated); the run stops iff an @fail ran (C13_only_atFail_stops); and every block that "
             "does not run @fail gives back the value stack, try stack, output stack and active-test count exactly as it "
             "found them, from ANY starting state (C13_block_restores, C13_run_invariant — the induction that makes "
-            "isolation hold for any sequence). Tied to the code by running generated test files (every body template "
-            "alone and between passing tests, all 120 orders of the five outcomes, random files of 1-12 blocks) through "
+            "isolation hold for any sequence). Blocks come in eight source shapes: a braced body, a missing / an extra "
+            "brace, bare statements without braces (the older style), and braced / bare bodies with an `@compile eof=` "
+            "directive whose marker is missing or whose (unbalanced) span ends at its marker; the split is modelled as "
+            "collectTestBodyTokens' state machine (inside a span nothing is a boundary; a directive without its marker is "
+            "copied as plain tokens: C13_eof_missing_marker_plain, C13_eof_no_span_stops_at_test). A separate model of the "
+            "file scope's usage map that every test's clone shares proves that a body which fails to compile cannot make "
+            "the FILE fail to compile, whatever it declared or read before it stopped "
+            "(C13_failed_body_keeps_file_compiling). Tied to the code by running generated test files (every body template "
+            "alone and between passing tests, with and without its braces, all 120 orders of the five outcomes, random "
+            "files of 1-12 blocks) through "
             "the real commands.TestAction in-process and comparing the printed PASS/FAIL lines and the stop/no-stop "
             "outcome with the model, plus a model-free oracle from the generator's own knowledge of each block. Bodies "
             "include `@compile` directives carrying each compiler-setting override (unknown=, unused=, optimize=) that "
             "compile, whose block error is caught or raised, and that fail at directive level after the flags are read "
             "(catch clause that does not compile, catch variable not a name / never used, missing ')', missing eof "
-            "marker), each followed by bodies whose verdict depends on the default settings (a name only known at run "
-            "time, an unused variable); a second model-free oracle requires every file to leave the three "
+            "marker - in any position of the file), each followed by bodies whose verdict depends on the default settings "
+            "(a name only known at run time, an unused variable); bodies that declare names before the statement that "
+            "does not compile (read before it, after it, never); `@error` without a message and calls of builtins, "
+            "package functions and user functions with a wrong argument count; `defer` written directly in a body; "
+            "a second model-free oracle requires every file to leave the three "
             "process-global compiler settings as a file without @compile leaves them.",
-    "note": "The model mirrors the code WITH fixes/C13.patch (three defects of the unpatched tree are witnessed by "
-            "C13_fail_line_old_counterexample, C13_split_old_counterexample, C13_stale_try_old_counterexample and are "
-            "reported as VIOLATION with concrete files against an unpatched tree). Trusted: Lean kernel; the harness; "
+    "note": "The model mirrors the code WITH fixes/C13.patch, fixes/C13-2.patch and fixes/C13-3.patch (five defects of "
+            "the unpatched tree are witnessed by C13_fail_line_old_counterexample, C13_split_old_counterexample, "
+            "C13_stale_try_old_counterexample, C13_scope_leak_old_counterexample, C13_eof_marker_old_counterexample and "
+            "are reported as VIOLATION with concrete files against an unpatched tree: class "
+            "bare-test-compile-error-fails-whole-file - a body without braces that declares a name and then does not "
+            "compile left the name unread in the file scope, so the unused-variable check at the end of the file failed "
+            "the whole file and no test ran (C13-2); class missing-eof-marker-swallows-later-tests - an `@compile eof=` "
+            "whose marker is missing took every later @test into its body (C13-3)). The file-scope model is tied to the "
+            "code by the direct oracle only (the usage map is not observable through `ego test`). Trusted: Lean kernel; the harness; "
             "the parse of 'TEST: … (PASS|FAIL)' lines. Modelled, not verified: a body is run big-step (what it leaves "
             "behind + how it ends), addresses are block-relative, all try entries are catch-all, the text of a line is "
             "(name, verdict). Out of scope: panic() and os.Exit() in a body (they end the run by design, like Go), "
-            "lexical damage that hides an @test from the tokenizer (unterminated raw string / comment, an `@compile eof=` "
-            "whose marker is missing: such a body is only generated as the last block of a file), a body that "
-            "shadows `len`/`T`/`__activeTests` at file level, goroutines.",
+            "lexical damage that hides an @test from the tokenizer (unterminated raw string / comment), an `@compile "
+            "eof=` whose marker text appears later in the file (the span then legitimately runs up to it), a body that "
+            "shadows `len`/`T`/`__activeTests` at file level, goroutines. Looked at and outside C13: (1) a body without "
+            "braces that compiles but declares a name no test ever reads (`@test \"t\"` / `y := 5`) fails the whole file "
+            "with 'variable created but never used': the name is a file-level declaration shared by all tests (TESTING.md "
+            "'Global scope'), whether it is read is only known when the file ends, so this is the file's compile error - "
+            "like an unread top-level variable before the first @test - and not a test that fails to compile; the "
+            "generator therefore never writes such a body without braces (c13NoBare); (2) a `defer` written directly in "
+            "a test body never runs (reproduced: the deferred increment is not visible to later tests, even a deferred "
+            "`@assert false` is not executed) but no test's PASS/FAIL line, the later tests or the summary change "
+            "(bodies p-/a-/r-defer-in-body are generated and judged like any other), so it only concerns the deferred "
+            "statement itself.",
     "technique": "Lean 4 proof (invariant + induction over the block list, symbolic execution of the skeleton) + "
                  "model/implementation correspondence through the real `ego test` entry",
     "design_ref": "DESIGN.md §6 C13",
@@ -37,7 +63,8 @@ META = {
 
 REQUIRED = ["C13_isolated", "C13_all_reported", "C13_only_atFail_stops", "C13_block_restores", "C13_run_invariant",
             "C13_split_every_test", "C13_fail_line_old_counterexample", "C13_split_old_counterexample",
-            "C13_stale_try_old_counterexample"]
+            "C13_stale_try_old_counterexample", "C13_eof_missing_marker_plain", "C13_eof_no_span_stops_at_test",
+            "C13_eof_marker_old_counterexample", "C13_failed_body_keeps_file_compiling", "C13_scope_leak_old_counterexample"]
 
 
 def run(ctx):
@@ -72,11 +99,14 @@ def run(ctx):
         "distinct_nontrivial": c.get("distinct_nontrivial", 0),
         "rule": "one evaluation = one generated test file through commands.TestAction; non-trivial = at least two "
                 "blocks of which at least one does not pass (or has brace damage); distinct by the sequence of body "
-                "templates. Corpus first: each of the %d body templates alone and between two passing tests, the 120 "
+                "templates and whether each is written with or without its braces. Corpus first: each of the %d body "
+                "templates alone and between two passing tests, each body that means the same without braces between a "
+                "passing and a failing brace-less test (non-compiling ones also alone), the 120 "
                 "orders of {pass, assert, run-time error, compile error, @fail}, every @compile-override body followed by "
                 "each default-setting-dependent body, the stale-try bodies; then random "
                 "files of 1-12 blocks (30%% pass, 20%% assert, 22%% run-time, 23%% compile error incl. missing/extra "
-                "brace, 5%% @fail), random descriptions (long, Unicode, containing '(PASS)')"
+                "brace or eof marker, 5%% @fail; in a third of the files half of the bodies lose their braces), random "
+                "descriptions (long, Unicode, containing '(PASS)')"
                 % len([k for k in c if k.startswith("tmpl_")]),
         "samples": st.get("samples", []),
         "counters": c,
